@@ -131,9 +131,10 @@ def readme():
               "History: the first run of this table missed C03-B, C04-A, C07-B, C10-A, C11-A, C11-B, C12-A, C16-B, C17-A and C19-B;",
               "round 3 (-E/-F) first missed C01-E, C03-E, C03-F, C04-E, C04-F, C10-E, C13-E, C14-F, C16-F, C18-E, C20-E;",
               "round 4 (-G/-H) first missed 11 and had 2 without an input; round 5 (-I/-J) first missed C11-J, C15-J, C18-J and had 16",
-              "flagged by a translator tie only; the generators/oracles/models were strengthened after each round (DESIGN.md",
+              "flagged by a translator tie only; round 6 (-K/-L) first missed C01-K, C01-L, C08-K, C09-K, C11-L, C17-L, C18-L and had 15",
+              "with a broken correspondence only; the generators/oracles/models were strengthened after each round (DESIGN.md",
               "section 10).  The verdict column is the last run of each change; `seeded/tie_verdicts.json` has the verdict of the",
-              "translator ties alone for the first 160."]
+              "translator ties alone for all of them.  C07-L stays `caught(no-failing-input-found)` on purpose (DESIGN.md section 10)."]
     (SEEDED / "README.md").write_text("\n".join(lines) + "\n")
 
 
